@@ -50,16 +50,64 @@
        vertex j up to slope * Dfrac + E19
        (C19_vertex_fraction_position_partial).
 
-   NOT proved (the property stays PARTIAL): vertex hits through
-   lengths[j] / dist when several vertices' cumulative lengths lie within
-   Dfrac of each other (needs a bound on the accumulated rounding error of
-   the running sums, which is not in this development); the GLOBAL Lipschitz
-   bound across segments in IEEE arithmetic (the per-segment IEEE bound and
-   the exact-arithmetic global bound are there; their combination needs the
-   same accumulated-error bound).  These are monitored by the search oracle of
-   harness/src/c19.rs with the rounding slack 1e-3 + 4e-6 * (magnitude + dist)
-   (4e-6 = 67 * 2^-24), which is wider than the proved per-segment bound
-   (at most 7.02 * 2^-24 * magnitude per coordinate). *)
+     - ACROSS segments, for the lengths calculate_length itself computes
+       (natural path 0: zero seed, no requested length), under the magnitude
+       hypotheses of C16_cumulative_lengths_ieee_bound (|c| <= 2^20, every
+       segment degenerate or >= 2^-10 long, <= 2^50 vertices, exact length
+       <= 2^1000): chord <= arc for the IEEE lengths,
+         |p_{k+1} - p_k| <= (1 + delta19) (l_{k+1} - l_k) + eta19 l_{k+1},
+       delta19 = 3.02 * 2^-24, eta19 = 1.002 * 2^-53
+       (C19_chord_le_length_increment_ieee), its chain over any run of
+       vertices (C19_chain_vertices_ieee), and the GLOBAL Lipschitz bound:
+       a on segment i, b on segment j >= i (segment indices and the
+       per-segment hypotheses given) -- per coordinate and Euclidean
+         |pos a - pos b| <= (1 + delta19) |b - a| + (j - i + 1) eta19 l_{j+1}
+                            + E19(segment i) + E19(segment j)
+       (C19_global_lipschitz_ieee, C19_global_lipschitz_ieee_adjacent).
+
+     - the same WITHOUT per-segment hypotheses and THROUGH THE SEARCH, for
+       exact length <= 2^40 (then the guard of the code fires only on
+       degenerate segments: C19_guard_fires_only_on_degenerate_segments; the
+       computed lengths are finite and non-decreasing:
+       C19_natural_lengths_sorted_ieee; the transcribed search puts a
+       distance in [0, dist] on a segment containing it:
+       C19_search_locates_ieee): with n vertices of coordinate magnitude
+       <= M and E19max M = 7.02 * 2^-24 M + 2^-125,
+         * the position computed for a distance d against ANY vertex m:
+           (1 + delta19) |d - l_m| + n eta19 dist + E19max M
+           (C19_position_near_vertex_ieee);
+         * VERTEX HITS: position_at (l_j / dist) is vertex j up to
+           (1 + delta19) Dfrac + n eta19 dist + E19max M for every vertex
+           with l_j > 0 -- clusters of nearly equal lengths, near-zero
+           segments and the last vertex included
+           (C19_vertex_fraction_position_ieee), and for every vertex, l_j = 0
+           included, when dist > 0 (C19_vertex_fraction_position_full_ieee);
+         * the GLOBAL Lipschitz bound for two distances in [0, dist] as the
+           search locates them, and for position_at at two finite progresses
+           in [0, 1]:  (1 + delta19) |b - a| + n eta19 dist + 2 E19max M per
+           coordinate, + 4 E19max M Euclidean
+           (C19_global_lipschitz_search_ieee,
+            C19_global_lipschitz_ieee_position_at); and in the progress
+           itself: (1 + delta19) |pb - pa| dist
+           + (n eta19 + 2.001 * 2^-53) dist + 2.001 * 2^-1075 + 2 E19max M
+           (C19_global_lipschitz_ieee_progress).
+
+   NOT proved (the property stays PARTIAL): all across-segment IEEE results
+   are for the NATURAL lengths of the path (calculate_length without a
+   requested length, zero seed).  Not covered: a curve cut or extended to a
+   requested length (its last length is the requested one, the last vertex
+   the adjusted one: needs C16_adjusted_end_ieee_bound chained in), the osu!
+   Catmull surplus seed (not stated; the one-step lemma
+   InterpIEEEGlobal.add_increment holds for any non-negative accumulator), paths with a non-degenerate segment shorter
+   than 2^-10 or an exact length above 2^40 (2^1000 for the theorems with
+   given segment indices), a curve with dist = 0 (l_j / dist is NaN),
+   progresses outside [0, 1] in the
+   Lipschitz statements (they are clamped: C19_progress_below_zero_is_clamped,
+   C19_progress_above_one_is_clamped; not chained in).  The
+   search oracle of harness/src/c19.rs keeps monitoring with the rounding
+   slack 1e-3 + 4e-6 * (magnitude + dist) (4e-6 = 67 * 2^-24), which is wider
+   than the proved bounds (7.02 * 2^-24 * magnitude per coordinate and
+   position, plus 3.02 * 2^-24 |b - a|, plus n * 1.002 * 2^-53 * dist). *)
 From Coq Require Import Reals.
 From Flocq Require Import IEEE754.BinarySingleNaN.
 From RM Require Import Model.ControlPoints Model.Curve Proofs.PositionFacts Proofs.LengthFacts
@@ -734,12 +782,16 @@ Print Assumptions C19_search_contract_ieee.
    resp. the next segment's.
    MISSING: (1) clusters of vertices whose cumulative lengths differ by less
    than Dfrac -- the search may land on another vertex of the cluster, and
-   bounding its distance to vertex j needs "chord <= arc" for the IEEE lengths,
-   i.e. a bound on the accumulated error of the running sums, which this
-   development does not have; (2) the first and the last vertex (covered
-   separately by C19_progress_zero_is_first_vertex and
+   bounding its distance to vertex j needs "chord <= arc" for the IEEE lengths
+   (now proved for the natural lengths: C19_chord_le_length_increment_ieee and
+   C19_chain_vertices_ieee at the end of this file, and with them the FULL
+   vertex-hit statement for natural lengths, clusters included:
+   C19_vertex_fraction_position_ieee); (2) the first and the last vertex
+   (covered separately by C19_progress_zero_is_first_vertex and
    C19_progress_one_repeated_last_length); (3) slope <= 1 + rounding for the
-   lengths calculate_length computes (same missing accumulated-error bound) *)
+   lengths calculate_length computes: proved for the natural lengths as
+   slope * (d1 - d0) <= (1 + delta19) (d1 - d0) + eta19 d1
+   (C19_chord_le_length_increment_ieee), not for adjusted / surplus lengths *)
 Theorem C19_vertex_fraction_position_partial :
   forall (path : list Pos) (lens : list F64) j p0 p1 p2 l0 l1 l2,
   let L := Curve.dist lens in
@@ -763,3 +815,341 @@ Example C19_vertex_fraction_example :
     (Rabs (B2R (px q) - 3) <= 1.4 / 1000000)%R /\ (Rabs (B2R (py q) - 4) <= 3.2 / 1000000)%R.
 Proof. split; [exact ex_sorted|]. split; [exact ex_frac_hyps|exact ex_frac_bound]. Qed.
 Print Assumptions C19_vertex_fraction_example.
+
+(* ================================================================== *)
+(* T19-IEEE across segments: chord <= arc for the computed lengths and *)
+(* the GLOBAL Lipschitz bound                                          *)
+(* ================================================================== *)
+From RM Require Import Proofs.AdjustIEEESum Proofs.InterpIEEEGlobal.
+
+(* the constants and the hypotheses on the path, spelled out *)
+Theorem C19_global_definitions :
+  delta19 = (3.02 * u32)%R /\ eta19 = (1.002 * u64)%R /\
+  u32 = (/ 16777216)%R /\ u64 = (/ 9007199254740992)%R /\
+  (forall a b, seg_ok a b <-> (R2 a = R2 b \/ (Raux.bpow Zaux.radix2 (-10) <= edist (R2 a) (R2 b))%R)) /\
+  (forall a b t, segs_ok (a :: b :: t) <-> seg_ok a b /\ segs_ok (b :: t)) /\
+  (forall p k, coord_le p k <-> bnd32 (px p) k /\ bnd32 (py p) k) /\
+  (forall path, natural path D.zero = D.zero :: fst (cum_lengths D.zero path)).
+Proof. split; [|split; [|split; [|split; [|split; [|split; [|split]]]]]]; intros; reflexivity. Qed.
+Print Assumptions C19_global_definitions.
+
+(* chord <= arc for the lengths calculate_length computes (zero seed, no
+   requested length): coordinates finite with |c| <= 2^20, every segment
+   degenerate or at least 2^-10 long, at most 2^50 vertices, exact length at
+   most 2^1000.  Two consecutive computed cumulative lengths are finite,
+   ordered, and the exact chord is at most (1 + delta19) times their
+   difference plus eta19 * l_{k+1} (the rounding of the one binary64 addition
+   is relative to the sum, not to the increment) *)
+Theorem C19_chord_le_length_increment_ieee :
+  forall (path : list Pos) k p0 p1 d0 d1,
+  Forall (fun p => coord_le p 20) path -> segs_ok path -> (length path <= 2 ^ 50)%nat ->
+  (poly_len (map R2 path) <= Raux.bpow Zaux.radix2 1000)%R ->
+  nth_error path k = Some p0 -> nth_error path (S k) = Some p1 ->
+  nth_error (natural path D.zero) k = Some d0 -> nth_error (natural path D.zero) (S k) = Some d1 ->
+  is_finite d0 = true /\ is_finite d1 = true /\ (0 <= B2R d0 <= B2R d1)%R /\
+  (edist (R2 p0) (R2 p1) <= (1 + delta19) * (B2R d1 - B2R d0) + eta19 * B2R d1)%R.
+Proof. exact chord_le_length_increment_ieee. Qed.
+Print Assumptions C19_chord_le_length_increment_ieee.
+
+(* from vertex i to vertex i + n along the computed lengths *)
+Theorem C19_chain_vertices_ieee :
+  forall (path : list Pos),
+  Forall (fun p => coord_le p 20) path -> segs_ok path -> (length path <= 2 ^ 50)%nat ->
+  (poly_len (map R2 path) <= Raux.bpow Zaux.radix2 1000)%R ->
+  forall n i pi pj li lj,
+  nth_error path i = Some pi -> nth_error path (i + n) = Some pj ->
+  nth_error (natural path D.zero) i = Some li -> nth_error (natural path D.zero) (i + n) = Some lj ->
+  (B2R li <= B2R lj)%R /\
+  (edist (R2 pi) (R2 pj) <= (1 + delta19) * (B2R lj - B2R li) + INR n * eta19 * B2R lj)%R.
+Proof. exact chain_vertices. Qed.
+Print Assumptions C19_chain_vertices_ieee.
+
+(* the GLOBAL Lipschitz bound in IEEE arithmetic: a on segment i, b on segment
+   j >= i (the segment indices and the per-segment hypotheses of
+   C19_interpolation_ieee_bound are given): per coordinate and in Euclidean
+   distance the computed positions are at most
+     (1 + delta19) |b - a| + (j - i + 1) eta19 l_{j+1} + E19(segment i) + E19(segment j)
+   apart *)
+Theorem C19_global_lipschitz_ieee :
+  forall (path : list Pos) i j a b p0 p1 d0 d1 q0 q1 e0 e1,
+  Forall (fun p => coord_le p 20) path -> segs_ok path -> (length path <= 2 ^ 50)%nat ->
+  (poly_len (map R2 path) <= Raux.bpow Zaux.radix2 1000)%R ->
+  (i <= j)%nat ->
+  nth_error path i = Some p0 -> nth_error path (S i) = Some p1 ->
+  nth_error (natural path D.zero) i = Some d0 -> nth_error (natural path D.zero) (S i) = Some d1 ->
+  nth_error path j = Some q0 -> nth_error path (S j) = Some q1 ->
+  nth_error (natural path D.zero) j = Some e0 -> nth_error (natural path D.zero) (S j) = Some e1 ->
+  interp_hyps p0 p1 d0 d1 a -> interp_hyps q0 q1 e0 e1 b ->
+  let Eax := E19 (B2R (px p0)) (B2R (px p1)) in
+  let Eay := E19 (B2R (py p0)) (B2R (py p1)) in
+  let Ebx := E19 (B2R (px q0)) (B2R (px q1)) in
+  let Eby := E19 (B2R (py q0)) (B2R (py q1)) in
+  let G := ((1 + delta19) * Rabs (B2R b - B2R a) + INR (j - i + 1) * eta19 * B2R e1)%R in
+  exists qa qb,
+    interpolate_vertices path (natural path D.zero) (S i) a = Done qa /\
+    interpolate_vertices path (natural path D.zero) (S j) b = Done qb /\
+    (Rabs (B2R (px qa) - B2R (px qb)) <= G + Eax + Ebx)%R /\
+    (Rabs (B2R (py qa) - B2R (py qb)) <= G + Eay + Eby)%R /\
+    (edist (R2 qa) (R2 qb) <= G + (Eax + Eay) + (Ebx + Eby))%R.
+Proof. exact global_lipschitz_ieee. Qed.
+Print Assumptions C19_global_lipschitz_ieee.
+
+(* two points in adjacent segments *)
+Theorem C19_global_lipschitz_ieee_adjacent :
+  forall (path : list Pos) i a b p0 p1 p2 d0 d1 d2,
+  Forall (fun p => coord_le p 20) path -> segs_ok path -> (length path <= 2 ^ 50)%nat ->
+  (poly_len (map R2 path) <= Raux.bpow Zaux.radix2 1000)%R ->
+  nth_error path i = Some p0 -> nth_error path (S i) = Some p1 -> nth_error path (S (S i)) = Some p2 ->
+  nth_error (natural path D.zero) i = Some d0 -> nth_error (natural path D.zero) (S i) = Some d1 ->
+  nth_error (natural path D.zero) (S (S i)) = Some d2 ->
+  interp_hyps p0 p1 d0 d1 a -> interp_hyps p1 p2 d1 d2 b ->
+  let G := ((1 + delta19) * (B2R b - B2R a) + 2 * eta19 * B2R d2)%R in
+  exists qa qb,
+    interpolate_vertices path (natural path D.zero) (S i) a = Done qa /\
+    interpolate_vertices path (natural path D.zero) (S (S i)) b = Done qb /\
+    (Rabs (B2R (px qa) - B2R (px qb)) <= G + E19 (B2R (px p0)) (B2R (px p1)) + E19 (B2R (px p1)) (B2R (px p2)))%R /\
+    (Rabs (B2R (py qa) - B2R (py qb)) <= G + E19 (B2R (py p0)) (B2R (py p1)) + E19 (B2R (py p1)) (B2R (py p2)))%R /\
+    (edist (R2 qa) (R2 qb) <= G + (E19 (B2R (px p0)) (B2R (px p1)) + E19 (B2R (py p0)) (B2R (py p1)))
+                                + (E19 (B2R (px p1)) (B2R (px p2)) + E19 (B2R (py p1)) (B2R (py p2))))%R.
+Proof. exact global_lipschitz_ieee_adjacent. Qed.
+Print Assumptions C19_global_lipschitz_ieee_adjacent.
+
+(* on the polyline (0,0) (3,4) (8,16) with the lengths calculate_length
+   computes: distance 2 lies on the first segment, distance 9 on the second
+   (that is where the search puts them), the hypotheses hold, and the two
+   computed positions -- (1.2, 1.6) and (4.5384617, 7.692308) -- are at most
+   |9 - 2| + 1e-5 apart *)
+Example C19_global_lipschitz_example :
+  (exists qa qb,
+     interpolate_vertices ex_path (natural ex_path D.zero) 1 (D.of_Z 2) = Done qa /\
+     interpolate_vertices ex_path (natural ex_path D.zero) 2 (D.of_Z 9) = Done qb /\
+     (edist (R2 qa) (R2 qb) <= 7 + 1 / 100000)%R) /\
+  (idx_of_dist (natural ex_path D.zero) (D.of_Z 2), idx_of_dist (natural ex_path D.zero) (D.of_Z 9)) = (1%nat, 2%nat) /\
+  dump_out dump_pos (interpolate_vertices ex_path (natural ex_path D.zero) 1 (D.of_Z 2))
+  = [0%Z; S.bits (S.of_decimal false 12 (-1)); S.bits (S.of_decimal false 16 (-1))] /\
+  dump_out dump_pos (interpolate_vertices ex_path (natural ex_path D.zero) 2 (D.of_Z 9))
+  = [0%Z; S.bits (S.of_decimal false 45384617 (-7)); S.bits (S.of_decimal false 7692308 (-6))].
+Proof.
+  split; [exact ex_global_lipschitz|]. split; [vm_compute; reflexivity|]. split; vm_compute; reflexivity.
+Qed.
+Print Assumptions C19_global_lipschitz_example.
+
+(* ------------------------------------------------------------------ *)
+(* the same WITHOUT per-segment hypotheses and THROUGH THE SEARCH:      *)
+(* exact length <= 2^40 (then the near-zero guard of the code fires     *)
+(* only on degenerate segments)                                         *)
+(* ------------------------------------------------------------------ *)
+
+Theorem C19_global_definitions_2 :
+  (forall M, E19max M = (u32 * 7.02 * M + Raux.bpow Zaux.radix2 (-125))%R) /\
+  (forall M path, coords_le M path <->
+     Forall (fun p => (Rabs (B2R (px p)) <= M)%R /\ (Rabs (B2R (py p)) <= M)%R) path) /\
+  (forall c0 c1 M, (Rabs c0 <= M)%R -> (Rabs c1 <= M)%R -> (E19 c0 c1 <= E19max M)%R).
+Proof. split; [|split]; [intros; reflexivity|intros; reflexivity|exact E19_le_max]. Qed.
+Print Assumptions C19_global_definitions_2.
+
+(* the computed natural lengths are finite, non-decreasing, within [0, 2^41] *)
+Theorem C19_natural_lengths_sorted_ieee :
+  forall (path : list Pos),
+  Forall (fun p => coord_le p 20) path -> segs_ok path -> (length path <= 2 ^ 50)%nat ->
+  (poly_len (map R2 path) <= Raux.bpow Zaux.radix2 40)%R ->
+  sorted_fin (natural path D.zero) /\
+  (forall k l, nth_error (natural path D.zero) k = Some l ->
+     is_finite l = true /\ (0 <= B2R l <= Raux.bpow Zaux.radix2 41)%R /\
+     (B2R l <= B2R (Curve.dist (natural path D.zero)))%R).
+Proof.
+  intros path Hc Hs Hn Ht. split; [exact (natural_sorted_fin path Hc Hs Hn Ht)|].
+  intros k l H. destruct (natural_nth_bound path Hc Hs Hn Ht k l H) as (F & B).
+  split; [exact F|]. split; [exact B|exact (natural_le_dist path Hc Hs Hn Ht k l H)].
+Qed.
+Print Assumptions C19_natural_lengths_sorted_ieee.
+
+(* a segment on which the guard fires has two numerically equal end points *)
+Theorem C19_guard_fires_only_on_degenerate_segments :
+  forall (path : list Pos),
+  Forall (fun p => coord_le p 20) path -> segs_ok path -> (length path <= 2 ^ 50)%nat ->
+  (poly_len (map R2 path) <= Raux.bpow Zaux.radix2 40)%R ->
+  forall k p0 p1 l0 l1,
+  nth_error path k = Some p0 -> nth_error path (S k) = Some p1 ->
+  nth_error (natural path D.zero) k = Some l0 -> nth_error (natural path D.zero) (S k) = Some l1 ->
+  D.le (D.abs (D.sub l0 l1)) D.eps = true -> R2 p0 = R2 p1.
+Proof. exact guard_true_degenerate. Qed.
+Print Assumptions C19_guard_fires_only_on_degenerate_segments.
+
+(* global bound, segment indices given, nothing assumed about the guard *)
+Theorem C19_global_lipschitz_segments_ieee :
+  forall (path : list Pos),
+  Forall (fun p => coord_le p 20) path -> segs_ok path -> (length path <= 2 ^ 50)%nat ->
+  (poly_len (map R2 path) <= Raux.bpow Zaux.radix2 40)%R ->
+  forall i j a b p0 p1 d0 d1 q0 q1 e0 e1,
+  (i <= j)%nat ->
+  nth_error path i = Some p0 -> nth_error path (S i) = Some p1 ->
+  nth_error (natural path D.zero) i = Some d0 -> nth_error (natural path D.zero) (S i) = Some d1 ->
+  nth_error path j = Some q0 -> nth_error path (S j) = Some q1 ->
+  nth_error (natural path D.zero) j = Some e0 -> nth_error (natural path D.zero) (S j) = Some e1 ->
+  is_finite a = true -> is_finite b = true ->
+  (B2R d0 <= B2R a <= B2R d1)%R -> (B2R e0 <= B2R b <= B2R e1)%R ->
+  let Eax := E19 (B2R (px p0)) (B2R (px p1)) in
+  let Eay := E19 (B2R (py p0)) (B2R (py p1)) in
+  let Ebx := E19 (B2R (px q0)) (B2R (px q1)) in
+  let Eby := E19 (B2R (py q0)) (B2R (py q1)) in
+  let G := ((1 + delta19) * Rabs (B2R b - B2R a) + INR (j - i + 1) * eta19 * B2R e1)%R in
+  exists qa qb,
+    interpolate_vertices path (natural path D.zero) (S i) a = Done qa /\
+    interpolate_vertices path (natural path D.zero) (S j) b = Done qb /\
+    (Rabs (B2R (px qa) - B2R (px qb)) <= G + Eax + Ebx)%R /\
+    (Rabs (B2R (py qa) - B2R (py qb)) <= G + Eay + Eby)%R /\
+    (edist (R2 qa) (R2 qb) <= G + (Eax + Eay) + (Ebx + Eby))%R.
+Proof. exact global_lipschitz_segments_ieee. Qed.
+Print Assumptions C19_global_lipschitz_segments_ieee.
+
+(* where the transcribed search puts a finite distance in [0, dist] *)
+Theorem C19_search_locates_ieee :
+  forall (path : list Pos),
+  Forall (fun p => coord_le p 20) path -> segs_ok path -> (length path <= 2 ^ 50)%nat ->
+  (poly_len (map R2 path) <= Raux.bpow Zaux.radix2 40)%R ->
+  forall d : F64, is_finite d = true -> (0 <= B2R d <= B2R (Curve.dist (natural path D.zero)))%R ->
+  (idx_of_dist (natural path D.zero) d = 0%nat /\ B2R d = 0%R) \/
+  exists i p0 p1 l0 l1, idx_of_dist (natural path D.zero) d = S i /\
+    nth_error path i = Some p0 /\ nth_error path (S i) = Some p1 /\
+    nth_error (natural path D.zero) i = Some l0 /\ nth_error (natural path D.zero) (S i) = Some l1 /\
+    (B2R l0 <= B2R d <= B2R l1)%R.
+Proof. exact search_locates. Qed.
+Print Assumptions C19_search_locates_ieee.
+
+(* the position computed for a distance (search, then interpolation) against
+   ANY vertex m of the curve; n = number of vertices, M = coordinate magnitude *)
+Theorem C19_position_near_vertex_ieee :
+  forall (path : list Pos),
+  Forall (fun p => coord_le p 20) path -> segs_ok path -> (length path <= 2 ^ 50)%nat ->
+  (poly_len (map R2 path) <= Raux.bpow Zaux.radix2 40)%R ->
+  forall M : R, coords_le M path -> (0 <= M)%R ->
+  forall (d : F64) m pm lm,
+  is_finite d = true -> (0 <= B2R d <= B2R (Curve.dist (natural path D.zero)))%R ->
+  nth_error path m = Some pm -> nth_error (natural path D.zero) m = Some lm ->
+  let B := ((1 + delta19) * Rabs (B2R d - B2R lm)
+            + INR (length path) * eta19 * B2R (Curve.dist (natural path D.zero)) + E19max M)%R in
+  exists q, interpolate_vertices path (natural path D.zero) (idx_of_dist (natural path D.zero) d) d = Done q /\
+    (Rabs (B2R (px q) - B2R (px pm)) <= B)%R /\ (Rabs (B2R (py q) - B2R (py pm)) <= B)%R.
+Proof. exact position_near_vertex_ieee. Qed.
+Print Assumptions C19_position_near_vertex_ieee.
+
+(* VERTEX HITS, FULL for the natural lengths (any vertex with a positive
+   cumulative length, clusters of nearly equal lengths, near-zero segments
+   and the last vertex included): position_at (lengths[j] / dist) is vertex j
+   up to (1 + delta19) Dfrac + n eta19 dist + E19max M per coordinate *)
+Theorem C19_vertex_fraction_position_ieee :
+  forall (path : list Pos),
+  Forall (fun p => coord_le p 20) path -> segs_ok path -> (length path <= 2 ^ 50)%nat ->
+  (poly_len (map R2 path) <= Raux.bpow Zaux.radix2 40)%R ->
+  forall M : R, coords_le M path -> (0 <= M)%R ->
+  forall j pj lj,
+  nth_error path j = Some pj -> nth_error (natural path D.zero) j = Some lj -> (0 < B2R lj)%R ->
+  let L := Curve.dist (natural path D.zero) in
+  let B := ((1 + delta19) * Dfrac (B2R lj) (B2R L) + INR (length path) * eta19 * B2R L + E19max M)%R in
+  exists q, position_at path (natural path D.zero) (D.div lj L) = Done q /\
+    (Rabs (B2R (px q) - B2R (px pj)) <= B)%R /\ (Rabs (B2R (py q) - B2R (py pj)) <= B)%R.
+Proof. exact vertex_fraction_position_ieee. Qed.
+Print Assumptions C19_vertex_fraction_position_ieee.
+
+(* GLOBAL Lipschitz bound through the search: two finite distances in [0, dist] *)
+Theorem C19_global_lipschitz_search_ieee :
+  forall (path : list Pos),
+  Forall (fun p => coord_le p 20) path -> segs_ok path -> (length path <= 2 ^ 50)%nat ->
+  (poly_len (map R2 path) <= Raux.bpow Zaux.radix2 40)%R ->
+  forall M : R, coords_le M path -> (0 <= M)%R ->
+  forall a b : F64,
+  is_finite a = true -> is_finite b = true ->
+  (0 <= B2R a <= B2R (Curve.dist (natural path D.zero)))%R ->
+  (0 <= B2R b <= B2R (Curve.dist (natural path D.zero)))%R ->
+  let G := ((1 + delta19) * Rabs (B2R b - B2R a)
+            + INR (length path) * eta19 * B2R (Curve.dist (natural path D.zero)))%R in
+  exists qa qb,
+    interpolate_vertices path (natural path D.zero) (idx_of_dist (natural path D.zero) a) a = Done qa /\
+    interpolate_vertices path (natural path D.zero) (idx_of_dist (natural path D.zero) b) b = Done qb /\
+    (Rabs (B2R (px qa) - B2R (px qb)) <= G + 2 * E19max M)%R /\
+    (Rabs (B2R (py qa) - B2R (py qb)) <= G + 2 * E19max M)%R /\
+    (edist (R2 qa) (R2 qb) <= G + 4 * E19max M)%R.
+Proof. exact global_lipschitz_search_ieee. Qed.
+Print Assumptions C19_global_lipschitz_search_ieee.
+
+(* ... and on position_at: finite progresses in [0, 1] *)
+Theorem C19_global_lipschitz_ieee_position_at :
+  forall (path : list Pos) (M : R) (pa pb : F64),
+  Forall (fun p => coord_le p 20) path -> segs_ok path -> (length path <= 2 ^ 50)%nat ->
+  (poly_len (map R2 path) <= Raux.bpow Zaux.radix2 40)%R -> coords_le M path -> (0 <= M)%R ->
+  is_finite pa = true -> is_finite pb = true -> (0 <= B2R pa <= 1)%R -> (0 <= B2R pb <= 1)%R ->
+  let lens := natural path D.zero in
+  let L := Curve.dist lens in
+  let a := progress_to_dist lens pa in
+  let b := progress_to_dist lens pb in
+  let G := ((1 + delta19) * Rabs (B2R b - B2R a) + INR (length path) * eta19 * B2R L)%R in
+  exists qa qb,
+    position_at path lens pa = Done qa /\ position_at path lens pb = Done qb /\
+    (Rabs (B2R (px qa) - B2R (px qb)) <= G + 2 * E19max M)%R /\
+    (Rabs (B2R (py qa) - B2R (py qb)) <= G + 2 * E19max M)%R /\
+    (edist (R2 qa) (R2 qb) <= G + 4 * E19max M)%R.
+Proof. exact global_lipschitz_position_at_ieee. Qed.
+Print Assumptions C19_global_lipschitz_ieee_position_at.
+
+(* the hypotheses of the theorems through the search hold on the polyline
+   (0,0) (3,4) (8,16) (exact length 18 <= 2^40, coordinates <= 16): on the
+   lengths calculate_length computes, position_at (lengths[1] / dist) is the
+   vertex (3, 4) up to 6.8e-6 per coordinate (exactly (3, 4) when run), and
+   position_at 0 / position_at 1 -- (0, 0) and (8, 16) when run -- are at most
+   18.0001 apart *)
+Example C19_search_theorems_example :
+  ((poly_len (map R2 ex_path) <= Raux.bpow Zaux.radix2 40)%R /\ coords_le 16 ex_path) /\
+  (forall lj, nth_error (natural ex_path D.zero) 1 = Some lj ->
+     exists q, position_at ex_path (natural ex_path D.zero) (D.div lj (Curve.dist (natural ex_path D.zero))) = Done q /\
+       (Rabs (B2R (px q) - 3) <= 6.8 / 1000000)%R /\ (Rabs (B2R (py q) - 4) <= 6.8 / 1000000)%R) /\
+  (exists qa qb, position_at ex_path (natural ex_path D.zero) (D.of_Z 0) = Done qa /\
+     position_at ex_path (natural ex_path D.zero) (D.of_Z 1) = Done qb /\
+     (edist (R2 qa) (R2 qb) <= 18 + 1 / 10000)%R) /\
+  (match nth_error (natural ex_path D.zero) 1 with
+   | Some lj => dump_out dump_pos (position_at ex_path (natural ex_path D.zero) (D.div lj (Curve.dist (natural ex_path D.zero))))
+   | None => [] end) = [0%Z; S.bits (S.of_Z 3); S.bits (S.of_Z 4)] /\
+  dump_out dump_pos (position_at ex_path (natural ex_path D.zero) (D.of_Z 0)) = [0%Z; S.bits (S.of_Z 0); S.bits (S.of_Z 0)] /\
+  dump_out dump_pos (position_at ex_path (natural ex_path D.zero) (D.of_Z 1)) = [0%Z; S.bits (S.of_Z 8); S.bits (S.of_Z 16)].
+Proof.
+  split; [exact ex_path_hyps40|]. split; [exact (proj1 ex_search_theorems)|]. split; [exact (proj2 ex_search_theorems)|].
+  split; [vm_compute; reflexivity|]. split; vm_compute; reflexivity.
+Qed.
+Print Assumptions C19_search_theorems_example.
+
+(* FAITHFUL ARC-LENGTH PARAMETRISATION in IEEE arithmetic, natural lengths, in
+   the PROGRESS: two finite progresses in [0, 1]; n vertices, coordinates of
+   magnitude <= M, dist = the last computed length.  Compare the exact
+   statement C19_exact_whole_curve: |pos a - pos b| <= |a - b| * total *)
+Theorem C19_global_lipschitz_ieee_progress :
+  forall (path : list Pos) (M : R) (pa pb : F64),
+  Forall (fun p => coord_le p 20) path -> segs_ok path -> (length path <= 2 ^ 50)%nat ->
+  (poly_len (map R2 path) <= Raux.bpow Zaux.radix2 40)%R -> coords_le M path -> (0 <= M)%R ->
+  is_finite pa = true -> is_finite pb = true -> (0 <= B2R pa <= 1)%R -> (0 <= B2R pb <= 1)%R ->
+  let lens := natural path D.zero in
+  let L := Curve.dist lens in
+  let G := ((1 + delta19) * Rabs (B2R pb - B2R pa) * B2R L
+            + (INR (length path) * eta19 + 2.001 * u64) * B2R L + 2.001 * eta64)%R in
+  exists qa qb,
+    position_at path lens pa = Done qa /\ position_at path lens pb = Done qb /\
+    (Rabs (B2R (px qa) - B2R (px qb)) <= G + 2 * E19max M)%R /\
+    (Rabs (B2R (py qa) - B2R (py qb)) <= G + 2 * E19max M)%R /\
+    (edist (R2 qa) (R2 qb) <= G + 4 * E19max M)%R.
+Proof. exact global_lipschitz_progress_ieee. Qed.
+Print Assumptions C19_global_lipschitz_ieee_progress.
+
+(* VERTEX HITS for EVERY vertex of a curve with its natural lengths and a
+   positive dist (l_j = 0 included: the progress and the distance are then
+   zeros and the search may land anywhere in the cluster of zero lengths) *)
+Theorem C19_vertex_fraction_position_full_ieee :
+  forall (path : list Pos) (M : R) j pj lj,
+  Forall (fun p => coord_le p 20) path -> segs_ok path -> (length path <= 2 ^ 50)%nat ->
+  (poly_len (map R2 path) <= Raux.bpow Zaux.radix2 40)%R -> coords_le M path -> (0 <= M)%R ->
+  let lens := natural path D.zero in
+  let L := Curve.dist lens in
+  nth_error path j = Some pj -> nth_error lens j = Some lj -> (0 < B2R L)%R ->
+  let B := ((1 + delta19) * Dfrac (B2R lj) (B2R L) + INR (length path) * eta19 * B2R L + E19max M)%R in
+  exists q, position_at path lens (D.div lj L) = Done q /\
+    (Rabs (B2R (px q) - B2R (px pj)) <= B)%R /\ (Rabs (B2R (py q) - B2R (py pj)) <= B)%R.
+Proof. exact vertex_fraction_position_full_ieee. Qed.
+Print Assumptions C19_vertex_fraction_position_full_ieee.
